@@ -86,7 +86,7 @@ class UnregisterLine(Contract):
 @register
 class RegisterLine(Contract):
     fn = "gfapy/lines/creators.py::Creators._register_line"
-    props = ("C02", "C09", "C08")
+    props = ("C02", "C09", "C08", "C07", "C03")
     fragment = "H"
     doc = ("_register_line(line): the line is stored exactly once, in the collection of its record type (created first if the Gfa has none yet) under the key "
            "_unregister_line looks for: its name, its identity when the name is a placeholder or the record type has no identifier; a fragment under its identity "
